@@ -101,7 +101,7 @@ META["C02"] = dict(
     "all (thorough) / 6 (quick) permutations. Distinct = hash of that tuple; non-trivial = the parser reached a decision.",
     gates={
         "st.union.dataclass_next_to_class_containers": g(60, 600),
-        "mon.a.castable_respelling": g(500, 5000), "st.union.sibling_containers": g(200, 2000),
+        "mon.a.castable_respelling": g(500, 5000), "st.union.sibling_containers": g(200, 2000), "st.union.sibling_containers_nested.converting_first_item": g(25, 250),
         "mon.a.boundary_conformance": g(3000, 30000),
         "mon.a.internal_contract": g(10000, 100000),
         "mon.b.conforming_native": g(1000, 10000),
